@@ -66,6 +66,15 @@ func modeC02(e *Env) {
 		RunStreamScenario(e.Rec, &StreamScenario{ID: id, Fam: "c02", Log: l, Start: l.Boundaries()[0], ServerID: 7,
 			Attempts: []AttemptPlan{a}, Note: "tlc"})
 	}
+	// statements the library has no kind for, between and inside transactions: they never alter the grouping
+	for i := 0; i < e.N(2, 16); i++ {
+		a := defaultAttempt()
+		a.Pacing = "lockstep"
+		id++
+		l := verbsLog(e.R, cfgs[e.R.Intn(len(cfgs))], gp)
+		RunStreamScenario(e.Rec, &StreamScenario{ID: id, Fam: "c02", Log: l, Start: l.Boundaries()[0], ServerID: 7,
+			Attempts: []AttemptPlan{a}, Note: "unknown-verbs"})
+	}
 	// every casing of begin (2^5), commit (2^6), rollback (2^8)
 	step := e.N(16, 1)
 	for m := 0; m < 256; m += step {
@@ -728,6 +737,34 @@ func stopPlans(l *Log, start Pos, r *rand.Rand, stride int) []AttemptPlan {
 			c.ReleaseDelayMs = 60
 			out = append(out, c)
 		}
+	}
+	// the master falls silent in the middle of a transaction (after BEGIN, before the commit event) and the caller cancels
+	// while the reader waits for the network: nothing more will ever arrive, Stream must return all the same
+	evs, _ := l.Served(start)
+	var inside []int
+	open := false
+	for i, ev := range evs {
+		switch {
+		case ev.K == "query" && ev.Cat == "begin":
+			open = true
+		case ev.K == "xid", ev.K == "query" && (ev.Cat == "commit" || ev.Cat == "rollback"):
+			open = false
+		}
+		if open {
+			inside = append(inside, i)
+		}
+	}
+	if len(inside) > 4 && stride > 1 {
+		inside = []int{inside[0], inside[1+r.Intn(len(inside)-2)], inside[1+r.Intn(len(inside)-2)], inside[len(inside)-1]}
+	}
+	for n, i := range inside {
+		a := defaultAttempt()
+		if n%2 == 1 {
+			a.Pacing = "lockstep"
+		}
+		a.End = "idle"
+		a.StallAfter = i
+		out = append(out, a)
 	}
 	// two stop causes in one session: the connection is lost on its own while the handler of transaction k is still busy, and
 	// then the handler fails / the caller cancels
